@@ -145,6 +145,7 @@ type property struct {
 	Assumptions []string
 	Trusted     []string
 	NoNative    bool
+	IgnoreKinds map[string]bool // path kinds that belong to another property's claim (counted, not reported)
 }
 
 func runCheck(p *property, tier string, seed int) int {
@@ -239,6 +240,10 @@ func runCheck(p *property, tier string, seed int) int {
 				v := &violation{Sig: p.ID + "|" + r.Label + "|panic|" + r.PanicCls + "|" + r.PanicSite, Case: c, Values: r.Model, Inputs: r.Inputs, Kind: "panic", Detail: r.Reason, Threads: r.Threads}
 				viols = append(viols, v)
 			case "DEADLOCK":
+				if p.IgnoreKinds["DEADLOCK"] {
+					foreign++
+					break
+				}
 				v := &violation{Sig: p.ID + "|" + r.Label + "|deadlock", Case: c, Values: r.Model, Inputs: r.Inputs, Kind: "deadlock", Detail: r.Reason, Threads: r.Threads}
 				viols = append(viols, v)
 			case "BUDGET":
